@@ -339,16 +339,21 @@ impl DynOp for Stash {
 }
 
 /// rt leg: poll once so that the op reaches the driver; keep an immediate result for later.
-pub fn prime(op: Box<dyn DynOp>, be: &mut Backend, pool: &BufferPool) -> Box<dyn DynOp> {
+pub fn prime(op: Box<dyn DynOp>, be: &mut Backend, pool: &BufferPool, early: &mut bool) -> Box<dyn DynOp> {
     if !matches!(be, Backend::Rt(_)) {
         return op;
     }
     let mut op = op;
     match op.next(be, pool) {
         NextOut::Pending => op,
-        other => Box::new(Stash {
-            inner: op,
-            first: Some(other),
-        }),
+        other => {
+            // a result without a handle has already released the op's buffer: the user-visible `next` of the
+            // model has in effect happened during submission
+            *early = !matches!(other, NextOut::Handle(..));
+            Box::new(Stash {
+                inner: op,
+                first: Some(other),
+            })
+        }
     }
 }
